@@ -24,6 +24,10 @@ def main():
             subjects['opaque'] = Operator.Possibility(Atomic(0, 0))
         if not Meta.quantified:
             subjects['opaque_q'] = Quantified(Quantifier.Existential, x, Predicated(F, (x,)))
+        elif 'SelfIdentityClosure' not in [r.name for r in logic.Rules.closure]:
+            # without the classical closure rules the system predicates are ordinary predicates
+            subjects['existence-pred'] = Predicated(Predicate.Existence, (a,))
+            subjects['identity-pred'] = Predicated(Predicate.Identity, (a, Constant(1, 0)))
         worlds = [0, 1] if Meta.modal else [None]
         out = []
         marks = [(False, True), (False, False), (True, True), (True, False)] if has_des else [(False, None), (True, None)]
